@@ -460,8 +460,9 @@ func smallCacheSpace(maxLen int) *explore.Space {
 // node, and differs between the candidates of one evaluation: nothing about a
 // pattern may be remembered from one node to the next.
 func perNodeSpace(nrules int) *explore.Space {
-	subs := []string{"a", "b", "ab", ""}
-	pats := []string{"a", "^b", "b$", "a+b", "(a|b)b", "(", "x"}
+	const missing = "\x00missing" // the r element has no s attribute: the subject is an empty node-set, i.e. ''
+	subs := []string{"a", "b", "ab", "", missing}
+	pats := []string{"a", "^b", "b$", "a+b", "(a|b)b", "(", "x", "^$", "b*"}
 	combos := len(subs) * len(pats)
 	total := 1
 	for i := 0; i < nrules; i++ {
@@ -476,17 +477,30 @@ func perNodeSpace(nrules int) *explore.Space {
 		Run: func(item int, w *explore.Worker) {
 			var rules []doc.Spec
 			var ss, ps []string
+			var miss []bool
 			c := item
 			for i := 0; i < nrules; i++ {
 				k := c % combos
 				c /= combos
 				sv, pv := subs[k%len(subs)], pats[k/len(subs)]
-				ss, ps = append(ss, sv), append(ps, pv)
-				rules = append(rules, doc.Spec{K: "e", N: "r", A: []doc.AttrS{{N: "s", V: sv}, {N: "p", V: pv}}})
+				ps = append(ps, pv)
+				if sv == missing {
+					ss, miss = append(ss, ""), append(miss, true)
+					rules = append(rules, doc.Spec{K: "e", N: "r", A: []doc.AttrS{{N: "p", V: pv}}})
+				} else {
+					ss, miss = append(ss, sv), append(miss, false)
+					rules = append(rules, doc.Spec{K: "e", N: "r", A: []doc.AttrS{{N: "s", V: sv}, {N: "p", V: pv}}})
+				}
 			}
 			t := doc.Build([]doc.Spec{{K: "e", N: "d", C: rules}})
-			// arena index of rule i: 2 + 3*i (element, then its two attributes)
-			idx := func(i int) int { return 2 + 3*i }
+			// arena index of rule i (each r element is followed by its attributes)
+			var ruleIdx []int
+			for k := range t.Nodes {
+				if t.Nodes[k].Kind == doc.Elem && t.Nodes[k].Local == "r" {
+					ruleIdx = append(ruleIdx, k)
+				}
+			}
+			idx := func(i int) int { return ruleIdx[i] }
 			for ei, es := range exprs {
 				w.Eval()
 				// reference: per rule verdict with Go regexp; an invalid pattern that is
@@ -510,7 +524,8 @@ func perNodeSpace(nrules int) *explore.Space {
 					case 2:
 						keep = !re.MatchString(ss[i])
 					case 3:
-						keep = re.ReplaceAllString(ss[i], "z") != ss[i]
+						// '' != (empty node-set) is false whatever the left side
+						keep = !miss[i] && re.ReplaceAllString(ss[i], "z") != ss[i]
 					}
 					if keep {
 						want = append(want, idx(i))
